@@ -256,8 +256,10 @@ where
 
     // In a debug build, let's double-check the steps computed above
     // with a brute-force solution.
+    // (Only offsets below max_offset are relevant; bounding the search also
+    // guarantees termination if there are no steps at all.)
     #[cfg(debug_assertions)]
-    let mut brute_force_steps = (0..)
+    let mut brute_force_steps = (0..crate::time::Time::from(max_offset.since_time_zero()))
         .filter(|t_a| {
             workload.iter().any(|cb|
                 // Negated conditions of Lemma 19.
@@ -277,7 +279,9 @@ where
     // In a debug build, shadow all_steps with the checked version.
     #[cfg(debug_assertions)]
     let all_steps = {
-        let mut wrapped = all_steps.peekable();
+        let mut wrapped = all_steps
+            .take_while(|activation| *activation < max_offset)
+            .peekable();
         // Manually check the first point to make sure we're not calling
         // zip on an empty iterator.
         assert_eq!(brute_force_steps.peek(), wrapped.peek());
